@@ -11,6 +11,18 @@ Every call of the real `Parser.parse` made by this plugin runs
     exception is not swallowed.
 The oracle (i)-(v) is evaluated inside the worker on the object `parse` returned (results
 are arbitrary host objects and need not survive pickling); the worker reports the verdicts.
+
+The step counter is active while host callbacks run (they run inside parse): an overrun inside a
+listener is raised there as the same BaseException and travels through emit and parse; should the
+implementation swallow it, it is raised again every REARM events and the call is a violation even
+if it finally returns (`meter.fired`).  A call that outlives its wall-clock budget is killed with
+its worker and reported as a violation with the formula (and, for the `subs` stream, the host
+program) as replay; when calls that do not return use up the overall deadline of the farm and
+violations are on record, the remaining cases are abandoned and the verdict is VIOLATION, not a
+harness error.  Self-test of that path (against a tree whose emit walks the live listener list):
+  C01_STEP_BASE=1000000000000 C01_HOST_CAP=1000000000 C01_WALL_BASE=3 HOTXLFP_REPO=<tree> check.py C01
+(step budget and host bound out of the way, 3 s of wall-clock per call) must exit 1 with
+"does not return within the wall-clock budget".  These variables are for that self-test only.
 """
 import datetime
 import json
@@ -39,11 +51,11 @@ FUNCTIONS = ['hotxlfp.parser:Parser.parse', 'hotxlfp.parser:Parser.call_function
 
 NINE = ('#ERROR!', '#DIV/0!', '#NAME?', '#N/A', '#NULL!', '#NUM!', '#REF!', '#VALUE!', '#GETTING_DATA')   # copied from the statement
 
-STEP_BASE = 1000000       # interpreter steps (function entries + jumps) allowed for any call ...
+STEP_BASE = int(os.environ.get('C01_STEP_BASE', '0') or 0) or 1000000       # interpreter steps (function entries + jumps) allowed for any call ...
 STEP_PER_CHAR = 100       # ... plus this many per input character (ply's loops are linear in the input)
 REARM = 20000             # see StepMeter
 LINE_FACTOR = 8           # settrace fallback: one step ~ 8 line events
-WALL_BASE = 20.0          # seconds; scaled by max(1, len/10^4)^2 (the lexer's regular expressions backtrack quadratically)
+WALL_BASE = float(os.environ.get('C01_WALL_BASE', '0') or 0) or 20.0          # seconds; scaled by max(1, len/10^4)^2 (the lexer's regular expressions backtrack quadratically)
 WORKERS = int(os.environ.get('C01_WORKERS', '0') or 0) or min(16, os.cpu_count() or 4)
 
 RULE_STATIC = (
@@ -66,15 +78,30 @@ RULE_STATIC = (
     'return any pool value, return a foreign XLError, an XLError subclass, odd objects, raise each singleton, '
     'ValueError("#N/A"), an exception whose __str__ raises, SyntaxError, StopIteration, RecursionError, MemoryError..., call '
     'the setter with odd values, re-enter parse on the same parser (bounded and unbounded), modify the parser during the '
-    'call; plus hostile objects (a value whose __class__ raises, an exception whose __traceback__ setter raises). Model '
+    'call; plus hostile objects (a value whose __class__ raises, an exception whose __traceback__ setter raises); '
+    '(e) subs = listeners and custom functions that RETURN NORMALLY but manipulate the parser\'s own subscriptions and bindings '
+    'while they run, given as small programs (handlers = lists of the actions set / on / once / off(name) / off(name, cb) / '
+    'set_variable / set_function; targets: the running callable itself = re-arming, a fresh callable that in turn does the '
+    'same, another handler; events: the one being delivered or a named one; names: the one being resolved or a literal): '
+    'structured = 27 scenarios (re-arm self/fresh/ping-pong/twice, once, on-then-once, once-then-on, subscribe for the other '
+    'events, off self/all/other/other events, off-then-on, on-then-off, set_variable/set_function of the resolved name, a '
+    'custom function that arms listeners or re-binds itself) x each of the four events, run on formulas with one and with '
+    'several references of that event and on mixed formulas; generated = seeded programs of 1..3 handlers x 1..4 actions, '
+    '1..2 initial subscriptions (on/once, any event), sometimes a custom function, on 6..9 formulas of at most 4 emits; '
+    'a fresh parser per call; the host callables stop acting after 300000 calls per parse (their own bound; under '
+    'snapshot delivery they are called once per subscription and emit, at most 120 times); after the first call of a subs '
+    'shard that overruns a budget the other formulas of the shard (same host program) are not run. Model '
     'comparison (eval of the Lean model, same formula and environment): wf formulas, fn calls of modelled builtins '
     '(arities 0..2 complete + samples; thorough: 0..3 complete + sample of 4), host functions/variables that return a pool '
-    'value or raise; soups, mutants, unicode, long, nest, literal: oracle only. Non-trivial = at least one call made (fn: '
+    'value or raise; soups, mutants, unicode, long, nest, literal, subs: oracle only (the model has no subscriptions). Non-trivial = at least one call made (fn: '
     'dispatched). One case = one shard of calls; the number of calls is in the run statistics appended below.')
 RULE = RULE_STATIC
 TRUSTED = ['the step counter (sys.monitoring JUMP + PY_START events, CPython 3.12) sees every Python-level loop iteration and call; '
            'C-level loops (re, int arithmetic, str methods) are bounded only by the wall-clock guard',
            'os.fork / SIGKILL of the worker farm',
+           'stream (e): the steps of the host callables count towards the budget of the call they run in; a call of a callable '
+           'costs about 11 steps and the programs are bounded (see subs_bound) so that under snapshot delivery a parse of '
+           'this stream stays below 5 % of the budget - an overrun is the delivery\'s, not the host\'s',
            'builtins outside the modelled families: oracle only (their termination is that of math/statistics/re)',
            'comparison operators applied to array-valued host values are not compared with the model (evaluate_logic is modelled on scalars)']
 ASSUMPTIONS = ['"raising" host callbacks raise subclasses of Exception; KeyboardInterrupt, SystemExit, GeneratorExit and other bare '
@@ -82,7 +109,9 @@ ASSUMPTIONS = ['"raising" host callbacks raise subclasses of Exception; Keyboard
                '"bounded time" is read as: at most 10^6 + 100*len(input) interpreter steps (function entries + jumps) and at most '
                '20 s * max(1, len/10^4)^2 wall-clock per call',
                '"the result is never itself an error object" is about the result entry itself; a list result may contain error objects',
-               'host callbacks that never return are not callbacks "that return or raise" and are not exercised',
+               'host callbacks that never return are not callbacks "that return or raise" and are not exercised; a listener that '
+               'subscribes listeners while it runs (re-arming) returns at every call and stops acting after 300000 calls: '
+               'when delivery to such a host does not end within the budgets, that is counted against parse',
                'the input is a str; other argument types are outside the statement']
 EXHAUSTIVE = {'quick': False, 'thorough': False}   # (c) is complete in thorough; strings and host behaviours sample infinite spaces
 
@@ -566,6 +595,248 @@ def _host_parser(where, how):
     return p, current
 
 
+# ---- host behaviours that manipulate the parser's own subscriptions / bindings while they run (stream e)
+#
+# A behaviour is a small PROGRAM (plain JSON data, so that a failing case is its own replay):
+#   {'init': [[op, event, hid], ...],         subscriptions made before parse is called (op = on | once)
+#    'fns': {'F': hid, ...},                  custom functions bound before parse is called
+#    'handlers': {hid: [action, ...], ...}}   what the callable of handler `hid` does each time it is called
+# actions:  ['set', k]                 listener: setter(pool[k]); custom function: pool[k] is its return value
+#           ['on' | 'once', ev, t]     parser.on/once(ev, t)
+#           ['off', ev] / ['off', ev, t]   parser.off(ev) / parser.off(ev, t)
+#           ['setvar', name, k]        parser.set_variable(name, pool[k])
+#           ['setfn', name, t]         parser.set_function(name, t)
+# ev   = an event name | 'same' (the event being delivered; 'callFunction' when the callable runs as a custom function)
+# t    = 'self' (the very callable that is running: re-arming) | 'fresh' (a NEW callable with the same actions, which
+#        in turn does the same) | hid (the shared callable of that handler) | ['const', k] (setfn only)
+# name = a literal name | 'resolved' (the variable/function name of the delivery; 'a' / 'F' for cell and range events)
+# Every callable returns normally.  All callables of one parser share ONE counter: after HOST_CAP calls they do nothing
+# any more, so that the host is a host "that returns" whatever the implementation does.  On an implementation that
+# delivers an emit to the listeners subscribed BEFORE the emit (a snapshot) every subscribed callable is called once per
+# emit and the cap is never reached: see `subs_bound` (generated programs: at most SUBS_MAX_ON subscriptions per call,
+# SUBS_MAX_INIT initial subscriptions, formulas of at most SUBS_MAX_EMITS emits -> at most 120 calls and about 5*10^4
+# steps, 5 % of the step budget).  HOST_CAP calls cost more than the step budget of any formula of this stream (a call
+# that subscribes is at least 5 counted events: the loop jumps of emit and of the callable, the entries of the callable, of
+# `on` and of the Listener constructor; measured: 11),
+# so an implementation that keeps delivering to listeners subscribed during the delivery overruns the step budget before
+# the host stops re-arming.  (C01_HOST_CAP / C01_STEP_BASE / C01_WALL_BASE in the environment override the three constants:
+# used only to exercise the wall-clock guard of the farm, see the self-test notes in the docstring.)
+
+HOST_CAP = int(os.environ.get('C01_HOST_CAP', '0') or 0) or 300000
+SUBS_MAX_ON = 2          # on/once actions per handler in generated programs
+SUBS_MAX_INIT = 2        # initial subscriptions in generated programs
+SUBS_MAX_EMITS = 4       # emits (references + function calls) of the formulas run with generated programs
+SUBS_MAX_ACTIONS = 4     # actions per handler in generated programs
+
+
+def subs_bound(n0=SUBS_MAX_INIT, a=SUBS_MAX_ON, e=SUBS_MAX_EMITS, acts=SUBS_MAX_ACTIONS):
+    """generated programs under snapshot delivery -> (calls, steps) upper bounds for one parse: an emit calls at most the n
+    subscribed callables and one custom function, each call makes at most `a` subscriptions; an action costs at most
+    ~15 events, except `off`, which walks the listener list of its event (at most acts - a of them when the list grows)"""
+    n, calls, steps = n0, 0, 0
+    for _ in range(e):
+        c = n + 1
+        n = n + a * c
+        calls += c
+        steps += c * (15 * acts + (acts - a) * n)
+    return calls, steps
+
+
+def _delivery(args):
+    """which event is being delivered to a callable called with `args` -> (event | None, resolved name | None)"""
+    n = len(args)
+    if n >= 2 and callable(args[-1]):
+        if n == 3:
+            return ('callFunction', args[0]) if type(args[0]) is str else ('callRangeValue', None)
+        if n == 2:
+            return ('callVariable', args[0]) if type(args[0]) is str else ('callCellValue', None)
+    return None, None
+
+
+def _subs_parser(prog):
+    """a fresh parser with the program installed -> (parser, state)"""
+    p = _new_parser()
+    values = pool()
+    p.set_variable('a', 3)
+    p.set_variable('b', 'txt')
+    p.set_function('F', lambda *a: a[0] if a else None)      # unless the program binds F itself
+    state = {'calls': 0, 'made': 0}
+    handlers = prog['handlers']
+    shared = {}
+
+    def make(hid, fname=None):
+        state['made'] += 1
+        acts = handlers[hid]
+
+        def cb(*args):
+            state['calls'] += 1
+            if state['calls'] > HOST_CAP:
+                return None                    # the host's own bound
+            ev, resolved = _delivery(args)
+            setter = args[-1] if ev is not None else None
+            if ev is None:
+                ev, resolved = 'callFunction', fname or 'F'
+            ret = None
+            for a in acts:
+                op = a[0]
+                if op == 'set':
+                    if setter is not None:
+                        setter(values[a[1]])
+                    else:
+                        ret = values[a[1]]
+                elif op == 'on':
+                    p.on(ev if a[1] == 'same' else a[1], target(a[2]))
+                elif op == 'once':
+                    p.once(ev if a[1] == 'same' else a[1], target(a[2]))
+                elif op == 'off':
+                    if len(a) == 2:
+                        p.off(ev if a[1] == 'same' else a[1])
+                    else:
+                        p.off(ev if a[1] == 'same' else a[1], target(a[2]))
+                elif op == 'setvar':
+                    p.set_variable((resolved if ev in ('callVariable', 'callFunction') else 'a') if a[1] == 'resolved' else a[1],
+                                   values[a[2]])
+                elif op == 'setfn':
+                    p.set_function((resolved if ev == 'callFunction' else 'F') if a[1] == 'resolved' else a[1], target(a[2]))
+                else:
+                    raise ValueError(a)
+            return ret
+
+        def target(t):
+            if t == 'self':
+                return cb
+            if t == 'fresh':
+                return make(hid, fname)
+            if type(t) is list:
+                v = values[t[1]]
+                return lambda *a: v
+            return get(t)
+        return cb
+
+    def get(hid):
+        if hid not in shared:
+            shared[hid] = make(hid)
+        return shared[hid]
+
+    for name, hid in sorted(prog.get('fns', {}).items()):
+        p.set_function(name, make(hid, name))
+    for op, ev, hid in prog['init']:
+        getattr(p, op)(ev, get(hid))
+    return p, state
+
+
+def describe_subs(prog):
+    return json.dumps(prog, sort_keys=True)
+
+
+# (formula, upper bound of the number of emits it makes - all four events counted, every function call is one) with one and with several
+# references; the structured scenarios run all of them, generated programs those of at most SUBS_MAX_EMITS emits
+SUB_FORMS = {
+    'callFunction': [('SUM(1,2)', 1), ('F(1)', 1), ('SUM(MAX(1,2),MIN(3,4))', 3), ('F(F(1))+F(2)', 3), ('IFERROR(NOSUCH(1),F())', 1),
+                     ('{SUM(1),F()}', 2)],
+    'callVariable': [('a', 1), ('a+a', 2), ('a&b&a', 3), ('IF(TRUE,a,b)', 4), ('nosuch', 1), ('SUM(a,b,a)', 4)],
+    'callCellValue': [('A1', 1), ('B2+20', 1), ('A1&A1&A1', 3), ('SUM($A$1,b2,C3)', 4), ('IFERROR(A1,B2)', 3), ('A1+B2*2', 2)],
+    'callRangeValue': [('A1:B2', 1), ('SUM(A1:B2)+SUM(A1:B2)', 4), ('A1:B2&A1:A1&B1:B2', 3), ('SUM(B2:a1,$A$1:B$2)', 3),
+                       ('IFERROR(A1:B2,7)', 2)],
+}
+SUB_MIXED = [('A1+a+SUM(A1:B2)', 4), ('F(a,A1)&SUM(A1:B2)', 5), ('IF(a,A1,B2)+F()', 5), ('a+A1+a+A1', 4), ('F(A1:B2,a)+A1', 4),
+             ('SUM(a,A1)+MAX(b,B2)', 6), ('F()+F()+a', 3), ('A1:B2+a+a', 3), ('x+x', 2), ('F(a)+A1', 3), ('SUM(A1:B2,a)', 3)]
+
+
+def sub_scenarios(ev, k, k2):
+    """the structured part of stream (e): every kind of manipulation, from inside the delivery of event `ev`"""
+    S = ['set', k]
+    others = [e for e in EVENTS if e != ev]
+    on1 = [['on', ev, 'h0']]
+    on2 = [['on', ev, 'h0'], ['on', ev, 'h1']]
+    out = [
+        ('rearm-self', on1, {'h0': [S, ['on', 'same', 'self']]}, {}),
+        ('rearm-self-first', on1, {'h0': [['on', 'same', 'self'], S]}, {}),
+        ('rearm-fresh', on1, {'h0': [S, ['on', 'same', 'fresh']]}, {}),
+        ('rearm-pingpong', on1, {'h0': [S, ['on', 'same', 'h1']], 'h1': [['on', 'same', 'h0']]}, {}),
+        ('rearm-twice', on1, {'h0': [['on', 'same', 'self'], ['on', 'same', 'fresh'], S]}, {}),
+        ('rearm-named', on1, {'h0': [S, ['on', ev, 'h0']]}, {}),
+        ('once-self', [['once', ev, 'h0']], {'h0': [S, ['once', 'same', 'self']]}, {}),
+        ('once-fresh', [['once', ev, 'h0']], {'h0': [S, ['once', 'same', 'fresh']]}, {}),
+        ('once-then-on', [['once', ev, 'h0']], {'h0': [['on', 'same', 'self'], S]}, {}),
+        ('on-then-once', on1, {'h0': [['once', 'same', 'self'], S]}, {}),
+        ('on-others', on1, {'h0': [S] + [['on', e, 'h0'] for e in others]}, {}),
+        ('on-others-fresh', on1, {'h0': [['on', others[0], 'fresh'], ['on', others[1], 'h1'], S], 'h1': [['set', k2], ['on', 'same', 'self']]}, {}),
+        ('off-self', on2, {'h0': [S, ['off', 'same', 'self']], 'h1': [['set', k2]]}, {}),
+        ('off-all', on2, {'h0': [['off', 'same']], 'h1': [S]}, {}),
+        ('off-other', on2, {'h0': [['off', 'same', 'h1'], S], 'h1': [['set', k2], ['off', 'same', 'h0']]}, {}),
+        ('off-others-events', on1 + [['on', others[0], 'h1']], {'h0': [S] + [['off', e] for e in others], 'h1': [['off', ev, 'h0']]}, {}),
+        ('off-then-on', on1, {'h0': [['off', 'same', 'self'], ['on', 'same', 'self'], S]}, {}),
+        ('on-then-off', on1, {'h0': [['on', 'same', 'fresh'], ['off', 'same', 'self'], S]}, {}),
+        ('offall-then-on', on2, {'h0': [['off', 'same'], ['on', 'same', 'self'], S], 'h1': [['set', k2]]}, {}),
+        ('on-then-offall', on1, {'h0': [S, ['on', 'same', 'self'], ['off', 'same']]}, {}),
+        ('once-off-self', [['once', ev, 'h0'], ['on', ev, 'h1']], {'h0': [['off', 'same', 'self'], S], 'h1': [['off', 'same', 'h0'], ['once', 'same', 'h0']]}, {}),
+        ('setvar-resolved', on1, {'h0': [['setvar', 'resolved', k], ['set', k2]]}, {}),
+        ('setvar-rearm', on1, {'h0': [['setvar', 'resolved', k], ['on', 'same', 'self']]}, {}),
+        ('setfn-resolved', on1, {'h0': [['setfn', 'resolved', ['const', k]], ['set', k2]]}, {}),
+        ('setfn-self-rearm', on1, {'h0': [['setfn', 'resolved', 'self'], ['on', 'same', 'fresh'], S]}, {}),
+        ('fn-arms', [], {'h0': [['on', ev, 'h1'], S], 'h1': [['set', k2], ['on', 'same', 'self']]}, {'F': 'h0'}),
+        ('fn-rearms-itself', on1, {'h0': [['on', 'same', 'self'], ['setfn', 'F', 'self'], S]}, {'F': 'h0'}),
+    ]
+    return [(name, {'init': init, 'handlers': hs, 'fns': fns}) for name, init, hs, fns in out]
+
+
+def gen_sub_prog(rng):
+    """a seeded program: 1..3 handlers of 1..4 actions, 1..2 initial subscriptions, sometimes a custom function"""
+    hids = ['h%d' % i for i in range(rng.choice([1, 1, 2, 3]))]
+    handlers = {}
+    for h in hids:
+        acts = []
+        n_on = 0
+        for _ in range(rng.randrange(1, 5)):
+            r = rng.random()
+            ev = rng.choice(['same', 'same', 'same', 'same'] + EVENTS)
+            if r < 0.45:
+                if n_on < SUBS_MAX_ON:
+                    n_on += 1
+                    acts.append([rng.choice(['on', 'on', 'on', 'once']), ev, rng.choice(['self', 'self', 'fresh', 'fresh'] + hids)])
+            elif r < 0.60:
+                acts.append(['off', ev] if rng.random() < 0.3 else ['off', ev, rng.choice(['self'] + hids)])
+            elif r < 0.78:
+                acts.append(['set', rng.randrange(NPOOL)])
+            elif r < 0.90:
+                acts.append(['setvar', rng.choice(['resolved', 'resolved', 'a', 'b', 'SUM', 'TRUE']), rng.randrange(NPOOL)])
+            else:
+                acts.append(['setfn', rng.choice(['resolved', 'resolved', 'F', 'SUM', 'a']),
+                             rng.choice(['self', 'fresh'] + hids + [['const', rng.randrange(NPOOL)]])])
+        handlers[h] = acts
+    init = [[rng.choice(['on', 'on', 'on', 'once']), rng.choice(EVENTS), rng.choice(hids)]
+            for _ in range(rng.randrange(1, SUBS_MAX_INIT + 1))]
+    fns = {'F': rng.choice(hids)} if rng.random() < 0.35 else {}
+    # handlers that nothing subscribes or binds are dead code: drop them (keeps replays readable)
+    live, todo = set(), [h for _, _, h in init] + list(fns.values())
+    while todo:
+        h = todo.pop()
+        if h not in live:
+            live.add(h)
+            todo += [a[-1] for a in handlers[h] if a[0] in ('on', 'once', 'off', 'setfn') and type(a[-1]) is str and a[-1] in handlers]
+    return {'init': init, 'handlers': dict((h, handlers[h]) for h in hids if h in live), 'fns': fns}
+
+
+def sub_items(rng, prog):
+    """formulas for a program: those of the events it is subscribed to at the start, and mixed ones"""
+    evs = sorted(set(e for _, e, _ in prog['init'])) or ['callFunction']
+    fs = []
+    for e in evs:
+        fs += rng.sample([f for f, n in SUB_FORMS[e] if n <= SUBS_MAX_EMITS], 3)
+    fs += rng.sample([f for f, n in SUB_MIXED if n <= SUBS_MAX_EMITS], 3)
+    return fs
+
+
+# the minimal witnesses of changes this stream once missed (regression cases; the generators reach the class on their own)
+SUBS_CORPUS = [
+    # emit walks the live listener list: a listener that subscribes itself again for the event being delivered
+    {'kind': 'subs', 'name': 'corpus:rearm-self:callCellValue',
+     'prog': {'init': [['on', 'callCellValue', 'h0']], 'handlers': {'h0': [['set', 0], ['on', 'callCellValue', 'h0']]}, 'fns': {}},
+     'items': ['A1', 'B2+20']},
+]
+
+
 # ----------------------------------------------------------------------------- items of a case
 
 def fn_formula(name, arity, idx):
@@ -610,6 +881,8 @@ def item(case, i):
         return case['src'], case['items'][i]
     if k == 'host':
         return ('host', case['where'], case['how']), case['items'][i]
+    if k == 'subs':
+        return ('subs', case['prog']), case['items'][i]
     return 'soup', case['items'][i]
 
 
@@ -637,6 +910,7 @@ def _run_case(case, skip, prog, tid, meter):
     frac_at = None
     mutated = 0
     calls = 0
+    host_calls = 0
     idxs = fn_indices(case) if case['kind'] == 'fn' else None
     if case['kind'] == 'fn':
         _counter.pop(case['name'], None)
@@ -648,7 +922,10 @@ def _run_case(case, skip, prog, tid, meter):
         prog[1] = i
         prog[3] = wall_limit(formula)
         prog[0] = tid
-        if isinstance(setup, tuple):
+        hstate = None
+        if isinstance(setup, tuple) and setup[0] == 'subs':
+            p, hstate = _subs_parser(setup[1])
+        elif isinstance(setup, tuple):
             p, current = _host_parser(setup[1], setup[2])
             current[0] = formula
         else:
@@ -680,6 +957,11 @@ def _run_case(case, skip, prog, tid, meter):
             if steps * 1000 > frac_max * step_limit(formula):
                 frac_max = steps * 1000 // step_limit(formula) + 1
                 frac_at = _show_formula(formula, 80)
+        if hstate is not None:
+            if hstate['calls'] > host_calls:
+                host_calls = hstate['calls']
+            if msg is not None:
+                msg += ' [the callables of the host program had been called %d times when the call ended]' % hstate['calls']
         if msg is not None:
             if len(viol) < 8:
                 viol.append([i, _show_formula(formula), msg])
@@ -692,9 +974,11 @@ def _run_case(case, skip, prog, tid, meter):
                 recs[i] = (e, _sanitize(r.get('result')))
         if setup == 'pool' or setup == 'soup':
             mutated += _repair_pool(p)
+        if hstate is not None and msg is not None and 'budget' in msg:
+            break       # the other formulas of a `subs` shard run the same host program: one overrun is the verdict of the shard
     prog[2] = 0.0
     out = {'n': calls, 'viol': viol, 'codes': codes, 'steps_max': steps_max, 'steps_max_at': steps_max_at, 'mutated': mutated,
-           'frac_max': frac_max, 'frac_at': frac_at}
+           'frac_max': frac_max, 'frac_at': frac_at, 'host_calls': host_calls}
     if case['kind'] == 'fn':
         out['dispatched'] = _counter.get(case['name'], 0)
     if keep:
@@ -749,6 +1033,24 @@ class _Worker(object):
             pass
 
 
+def _abandoned(case, viol):
+    out = {'n': len(viol), 'viol': list(viol), 'codes': {}, 'steps_max': 0, 'steps_max_at': None, 'mutated': 0, 'frac_max': 0,
+           'frac_at': None, 'host_calls': 0, 'abandoned': True}
+    if case['kind'] == 'fn':
+        out['dispatched'] = out['n']
+    return out
+
+
+def _requeue(cases, tid, extra, results, pending):
+    """a call of case `tid` did not return and its worker is gone: run the rest of the shard in a new worker - except for a
+    `subs` shard, whose formulas all run the same host program: there the call that did not return is the verdict"""
+    if cases[tid]['kind'] == 'subs':
+        results[tid] = _abandoned(cases[tid], extra[tid])
+        results[tid]['abandoned'] = False
+    else:
+        pending.insert(0, tid)
+
+
 def run_farm(cases, deadline_s):
     """run the cases in forked workers -> list of summaries (same order)"""
     common.load_repo()
@@ -789,7 +1091,7 @@ def run_farm(cases, deadline_s):
                     extra[w.tid].append([i, _show_formula(formula), 'the worker process died (exit code %s) during this call: '
                                          'parse did not return' % rc])
                     skips[w.tid].add(i)
-                    pending.insert(0, w.tid)
+                    _requeue(cases, w.tid, extra, results, pending)
                     idle.append(_Worker(ctx))
                     continue
                 if 'harness_error' in summ:
@@ -812,10 +1114,23 @@ def run_farm(cases, deadline_s):
                     extra[w.tid].append([i, _show_formula(formula), 'does not return within the wall-clock budget of %.0f s '
                                          '(%d characters; the process was killed)' % (limit, len(formula))])
                     skips[w.tid].add(i)
-                    pending.insert(0, w.tid)
+                    _requeue(cases, w.tid, extra, results, pending)
                     idle.append(_Worker(ctx))
             if time.time() > t_end:
-                raise RuntimeError('C01 farm exceeded its overall deadline of %d s (%d cases left)' % (deadline_s, len(pending) + len(busy)))
+                if not (any(extra) or any(r is not None and r['viol'] for r in results)):
+                    raise RuntimeError('C01 farm exceeded its overall deadline of %d s (%d cases left)' % (
+                        deadline_s, len(pending) + len(busy)))
+                # violations have been found and the calls that do not return have used up the time: the verdict stands,
+                # the cases not finished are reported as abandoned (0 calls, plus the violations already attributed to them)
+                left = [w.tid for w in busy] + pending
+                sys.stderr.write('C01: overall deadline of %d s reached with violations on record; %d cases abandoned\n' % (
+                    deadline_s, len(left)))
+                for tid in left:
+                    results[tid] = _abandoned(cases[tid], extra[tid])
+                pending = []
+                for w in busy:
+                    w.kill()
+                busy = []
     finally:
         for w in idle + busy:
             try:
@@ -1087,6 +1402,16 @@ def cases(rng, ctx):
             out.append({'kind': 'host', 'where': 'listen:' + ev, 'how': how, 'items': EVENT_FORMS[ev]})
     out += [dict(c) for c in HOSTILE_CASES]
 
+    # ---- (e) host callbacks that return normally but manipulate the parser's subscriptions / bindings while they run
+    out += [json.loads(json.dumps(c)) for c in SUBS_CORPUS]
+    for ev in EVENTS:
+        forms = [f for f, _ in SUB_FORMS[ev]] + [f for f, _ in SUB_MIXED]
+        for name, prog in sub_scenarios(ev, rng.randrange(NPOOL), rng.randrange(NPOOL)):
+            out.append({'kind': 'subs', 'name': name + ':' + ev, 'prog': prog, 'items': forms})
+    for _ in range((3000 if thorough else 250) * scale):
+        prog = gen_sub_prog(rng)
+        out.append({'kind': 'subs', 'name': 'generated', 'prog': prog, 'items': sub_items(rng, prog)})
+
     _pending[:] = out
     _results.clear()
     return out
@@ -1195,6 +1520,10 @@ def _record_stats(batch, res, wall):
         for k, v in r['codes'].items():
             k = 'none' if k is None else str(k)
             codes[k] = codes.get(k, 0) + v
+    subs = [r for c, r in zip(batch, res) if c['kind'] == 'subs']
+    STATS.update({'subs_max_steps': max([r['steps_max'] for r in subs] or [0]),
+                  'subs_max_host_calls_in_one_parse': max([r.get('host_calls', 0) for r in subs] or [0]),
+                  'abandoned_cases': len([r for r in res if r.get('abandoned')])})
     STATS.update({'calls': calls, 'total_calls': sum(calls.values()), 'max_steps': steps, 'max_steps_at': where, 'max_permille_of_step_budget': frac,
                   'max_permille_at': frac_at, 'records_by_error': codes,
                   'pool_arrays_mutated_in_place': mutated, 'workers': WORKERS, 'farm_wall_s': round(wall, 1),
@@ -1246,7 +1575,8 @@ def oracle(case, ans):
     if ans['viol']:
         i, f, msg = ans['viol'][0]
         more = len(ans['viol']) - 1
-        return '%s: %s%s' % (f, msg, ' (+%d more in this shard)' % more if more else '')
+        host = ' | host program: ' + describe_subs(case['prog']) if case['kind'] == 'subs' else ''
+        return '%s: %s%s%s' % (f, msg, ' (+%d more in this shard)' % more if more else '', host)
     if case['kind'] == 'fn' and ans['dispatched'] != ans['n']:
         # not a property violation, but the sweep would be vacuous: the registered function was not dispatched
         raise RuntimeError('C01: %s was dispatched %d times in %d calls' % (case['name'], ans['dispatched'], ans['n']))
